@@ -42,52 +42,69 @@ def splitAtFirst (p : Char → Bool) : List Char → Option (List Char × List C
   | [] => none
   | c :: cs => if p c then some ([], cs) else (splitAtFirst p cs).map fun (a, b) => (c :: a, b)
 
-/-- body of a string token: up to the closing quote, a backslash takes the next character literally -/
-def stringBody : List Char → Option (List Char × List Char)
-  | [] => none
-  | c :: cs =>
+/-- body of a string token: up to the closing quote, a backslash takes the next character literally
+    (`esc` = the previous character was the backslash) -/
+def stringBody : List Char → (esc : Bool) → Option (List Char × List Char)
+  | [], _ => none
+  | c :: cs, true => (stringBody cs false).map fun (a, b) => (c :: a, b)
+  | c :: cs, false =>
     if c == '"' then some ([], cs)
-    else if c == '\\' then
-      match cs with
-      | [] => none
-      | d :: ds => (stringBody ds).map fun (a, b) => (d :: a, b)
-    else (stringBody cs).map fun (a, b) => (c :: a, b)
+    else if c == '\\' then stringBody cs true
+    else (stringBody cs false).map fun (a, b) => (c :: a, b)
+
+/-- longest prefix of characters satisfying `p`, and the rest -/
+def takeRun (p : Char → Bool) : List Char → List Char × List Char
+  | [] => ([], [])
+  | c :: cs => if p c then let (a, b) := takeRun p cs; (c :: a, b) else ([], c :: cs)
 
 def symTerm : List Char := ['.', '*', '[', ']', '(', ')', '{', ';', '"', '$']
 
-/-- `PgnScanner::nextToken` (without the put-back stack) -/
+/-- which arm of `PgnScanner::nextToken` a non-blank first character selects -/
+inductive Arm where
+  | period | asterisk | lbracket | rbracket | lparen | rparen | brace | semicolon | quote | dollar | other
+deriving DecidableEq, Repr
+
+def armOf (c : Char) : Arm :=
+  if c == '.' then .period else if c == '*' then .asterisk else if c == '[' then .lbracket
+  else if c == ']' then .rbracket else if c == '(' then .lparen else if c == ')' then .rparen
+  else if c == '{' then .brace else if c == ';' then .semicolon else if c == '"' then .quote
+  else if c == '$' then .dollar else .other
+
+/-- the token that starts with the non-blank character `c` -/
+def tokAfter (c : Char) (cs : List Char) : Tok × List Char :=
+  match armOf c with
+  | .period => ({ ty := .period }, cs)
+  | .asterisk => ({ ty := .asterisk }, cs)
+  | .lbracket => ({ ty := .lbracket }, cs)
+  | .rbracket => ({ ty := .rbracket }, cs)
+  | .lparen => ({ ty := .lparen }, cs)
+  | .rparen => ({ ty := .rparen }, cs)
+  | .brace =>
+    match splitAtFirst (· == '}') cs with
+    | some (body, rest) => ({ ty := .comment, s := body }, rest)
+    | none => ({ ty := .eof }, [])
+  | .semicolon =>
+    match splitAtFirst isNl cs with
+    | some (body, rest) => ({ ty := .comment, s := body }, rest)
+    | none => ({ ty := .eof }, [])
+  | .quote =>
+    match stringBody cs false with
+    | some (body, rest) => ({ ty := .string, s := body }, rest)
+    | none => ({ ty := .eof }, [])
+  | .dollar =>
+    match takeRun isDigitC cs with
+    | (_, []) => ({ ty := .eof }, [])
+    | (ds, rest) => ({ ty := .nag, s := ds }, rest)
+  | .other =>
+    match takeRun (fun d => !(isSpaceC d || symTerm.contains d)) cs with
+    | (_, []) => ({ ty := .eof }, [])
+    | (more, rest) => ({ ty := if (c :: more).all isDigitC then .integer else .symbol, s := c :: more }, rest)
+
+/-- `PgnScanner::nextToken` (without the put-back stack): skip blanks, then one token; END when the stream ends
+    before the token is complete (the C++ catches its own end-of-input exception) -/
 def nextTok : List Char → Tok × List Char
   | [] => ({ ty := .eof }, [])
-  | c :: cs =>
-    if isSpaceC c then nextTok cs
-    else if c == '.' then ({ ty := .period }, cs)
-    else if c == '*' then ({ ty := .asterisk }, cs)
-    else if c == '[' then ({ ty := .lbracket }, cs)
-    else if c == ']' then ({ ty := .rbracket }, cs)
-    else if c == '(' then ({ ty := .lparen }, cs)
-    else if c == ')' then ({ ty := .rparen }, cs)
-    else if c == '{' then
-      match splitAtFirst (· == '}') cs with
-      | some (body, rest) => ({ ty := .comment, s := body }, rest)
-      | none => ({ ty := .eof }, [])
-    else if c == ';' then
-      match splitAtFirst isNl cs with
-      | some (body, rest) => ({ ty := .comment, s := body }, rest)
-      | none => ({ ty := .eof }, [])
-    else if c == '"' then
-      match stringBody cs with
-      | some (body, rest) => ({ ty := .string, s := body }, rest)
-      | none => ({ ty := .eof }, [])
-    else if c == '$' then
-      match cs.span isDigitC with
-      | (_, []) => ({ ty := .eof }, [])
-      | (ds, rest) => ({ ty := .nag, s := ds }, rest)
-    else
-      match cs.span fun d => !(isSpaceC d || symTerm.contains d) with
-      | (_, []) => ({ ty := .eof }, [])
-      | (more, rest) =>
-        let sb := c :: more
-        ({ ty := if sb.all isDigitC then .integer else .symbol, s := sb }, rest)
+  | c :: cs => if isSpaceC c then nextTok cs else tokAfter c cs
 
 /-- scanner state: the put-back stack (top first) and the remaining character stream -/
 structure Sc where
